@@ -248,6 +248,10 @@ where
 
     #[allow(dead_code)]
     pub(in crate::client) fn try_lock(&self) -> Option<PoolGuard<C, B>> {
+        #[cfg(feature = "verif-hooks")]
+        if crate::verif_hooks::pool_lock_contended() {
+            return None;
+        }
         self.inner
             .upgrade()
             .and_then(|inner| inner.try_lock_arc().map(PoolGuard))
